@@ -80,3 +80,23 @@ def decode_result(r):
                              "startChar": int(p[4]), "endChar": int(p[5]), "startUtf8": int(p[6]), "endUtf8": int(p[7])})
         return {"kind": "TOKS", "toks": toks}
     return {"kind": f[0], "raw": r}
+
+def run_parallel(cmd, lines, env=None, timeout=3600, jobs=None, min_chunk=400):
+    """run_robust on contiguous chunks of the case list in parallel worker processes (one
+    line-protocol process per chunk); results come back in the original order."""
+    import concurrent.futures
+    jobs = jobs or int(os.environ.get("VERIF_JOBS", "8"))
+    n = len(lines)
+    k = max(1, min(jobs, n // min_chunk))
+    if k == 1: return run_robust(cmd, lines, env, timeout)
+    size = (n + k - 1) // k
+    chunks = [lines[i:i + size] for i in range(0, n, size)]
+    def envfor(i):
+        e = dict(env or {})
+        if "PVH_WORKDIR" in e: e["PVH_WORKDIR"] = e["PVH_WORKDIR"] + "_%d" % i     # font files are written per process
+        return e
+    with concurrent.futures.ThreadPoolExecutor(max_workers=len(chunks)) as ex:
+        parts = list(ex.map(lambda ic: run_robust(cmd, ic[1], envfor(ic[0]), timeout), list(enumerate(chunks))))
+    out = []
+    for pr in parts: out.extend(pr)
+    return out
